@@ -282,3 +282,6 @@ def decide_inconclusive(obs, results, cases):
     if obs.get('records_handled', 0) == 0 or obs.get('end_of_life_records', 0) == 0:
         return 'no record was handled / no end-of-life record case ran'
     return None
+
+
+RULE = RULE + '; whole parent programs that end right after join()/result(); named-logger / handler levels'
